@@ -27,7 +27,7 @@ def nameset(kind, nv, nalg, nlog, nobj):
         return (["_svar[%d]" % (((i + 1) % nv) + 1) for i in range(nv)], ["_scon[%d]" % (((i + 1) % max(nalg, 1)) + 1) for i in range(nalg)],
                 ["_slogcon[%d]" % (i + 2) for i in range(nlog)], ["_sobj[%d]" % (i + 2) for i in range(nobj)])
     return (["x", "x_slk_", "x_equ_"][:nv] + ["w%d" % i for i in range(3, nv)], ["r"] + ["r_slk_", "r_equ_", "r_2_", "r_3_"][:max(0, nalg - 1)],
-            ["r_slk__2_"][:nlog], ["r_obj"][:nobj])
+            ["r_slk__2_", "r_slk__3_", "r_equ__2_"][:nlog], ["r_obj"][:nobj])
 
 
 def codes(s):
@@ -40,11 +40,14 @@ def run(tier):
     g = tlc("GenNames", "GenNames.cfg", cwd=sd, workers=NPROC)
     tlc_must_pass(g, "GenNames")
     gen = printed_json(g, "CASE")
-    if len(gen) != 5 * 8 * 3 * 4 * 6 * 5:
+    if len(gen) != 5 * 9 * 3 * 4 * 7 * 5:
         raise Broken("GenNames produced %d cases" % len(gen))
     gen.sort(key=lambda c: json.dumps(c, sort_keys=True))
     rnd = random.Random(seed())
     picks = list(range(len(gen))) if tier == "thorough" else sorted(rnd.sample(range(len(gen)), 700))
+    if tier != "thorough":       # the .row file cut inside the logical block, with several logical constraints: a fixed share
+        special = [i for i, c_ in enumerate(gen) if c_["extra"] == "logic3" and c_["files"] in ("rowcutlog", "short")]
+        picks = sorted(set(picks) | set(rnd.sample(special, min(60, len(special)))))
     exe = targets.get("h_drv_asan" if tier == "thorough" else "h_drv")   # thorough: ASan/UBSan build
     cfgs, acc = cvtcases.configs(exe)
     linear_opts = dict(cfgs)["mip-linear"]
@@ -60,6 +63,8 @@ def run(tier):
             col, rowf = vn, cn + ln + on
             if a["files"] == "short":
                 col, rowf = col[:max(1, nv - 2)], rowf[:max(1, nalg - 1)]
+            if a["files"] == "rowcutlog":     # the .row file ends inside the block of the logical constraints
+                rowf = rowf[:nalg + max(0, min(1, nlog - 1))] if nlog else rowf[:max(1, nalg - 1)]
             if a["files"] == "colonly":
                 rowf = []
             if a["files"] == "rowonly":
